@@ -610,7 +610,7 @@ def generate(repo):
             out.append(f"/-- `{qual}` ({REL}:{f.lineno}); calls of one-expression module functions inlined -/")
             out.append(emit_kernel(lean_name, qual, k))
             rep[lean_name] = dict(ok=True, scalars=k["scalars"])
-        except Untranslatable as ex:
+        except Exception as ex:          # noqa: BLE001  (anything unexpected = not recognised)
             out.append(emit_untranslatable(lean_name, qual, str(ex)))
             rep[lean_name] = dict(ok=False, why=str(ex))
     # connectivity guard
@@ -622,7 +622,7 @@ def generate(repo):
         out.append("/-- the `if <test over plain scalars>: raise` guards of `a_star_search` -/")
         out.append(emit_kernel("validate", "pathfinding.a_star_search", k))
         rep["validate"] = dict(ok=True, scalars=k["scalars"])
-    except Untranslatable as ex:
+    except Exception as ex:          # noqa: BLE001  (anything unexpected = not recognised)
         out.append(emit_untranslatable("validate", "pathfinding.a_star_search", str(ex)))
         rep["validate"] = dict(ok=False, why=str(ex))
 
@@ -631,14 +631,14 @@ def generate(repo):
     try:
         roles = loop_roles(mod)
         rep["roles"] = {k: v for k, v in roles.items() if k not in ("func", "loop", "zip")}
-    except Untranslatable as ex:
+    except Exception as ex:          # noqa: BLE001  (anything unexpected = not recognised)
         rep["roles"] = dict(ok=False, why=str(ex))
     try:
         if not roles:
             raise Untranslatable(rep["roles"]["why"])
         t8, t4, k = neighbor_tables(mod, roles)
         rep["neighbors"] = dict(ok=True, test=k, yes=t8, no=t4)
-    except Untranslatable as ex:
+    except Exception as ex:          # noqa: BLE001  (anything unexpected = not recognised)
         t8, t4, k = [], [], 0
         rep["neighbors"] = dict(ok=False, why=str(ex))
     out += ["/-- `_neighborhood_structure`: offsets `(dy, dx)` in the order the loop `for y, x in zip(neighbor_ys, neighbor_xs)`",
@@ -663,7 +663,7 @@ def generate(repo):
         out += [f"/-- `_is_not_crossable({', '.join(params)})` as a condition (scalar `{params[0]}`, vector `{params[1]}`) -/",
                 f"def notCrossable : C :=\n {c}", ""]
         rep["notCrossable"] = dict(ok=True)
-    except (Untranslatable, IndexError) as ex:
+    except Exception as ex:          # noqa: BLE001
         out += ["def notCrossable : C := C.cmp .lt E.nan E.nan", ""]
         rep["notCrossable"] = dict(ok=False, why=str(ex))
     # what `a_star_search` does to the caller's list before the kernels see it
@@ -698,7 +698,7 @@ def generate(repo):
                             if kw.arg == "dtype":
                                 casts.append("dtype=" + ast.unparse(kw.value))
         rep["barrierCasts"] = dict(ok=True, name=bname, casts=casts)
-    except Untranslatable as ex:
+    except Exception as ex:          # noqa: BLE001  (anything unexpected = not recognised)
         rep["barrierCasts"] = dict(ok=False, why=str(ex))
     out += ["/-- conversions `a_star_search` applies to the caller's barrier list beyond `np.array(...)` (none: the kernels compare",
             "    each cell with the listed numbers themselves, under the platform's promotion rules) -/",
@@ -713,7 +713,7 @@ def generate(repo):
                 "    " + ", ".join(f"{k} -> {v}" for k, v in sorted(ren.items())) + " -/",
                 f"def relaxBody : S :=\n {body}", ""]
         rep["relaxBody"] = dict(ok=True, cell_vars=tr.used, vectors=tr.vectors, names=ren)
-    except Untranslatable as ex:
+    except Exception as ex:          # noqa: BLE001  (anything unexpected = not recognised)
         out += [f"def relaxBody : S := S.fail {lean_str('untranslatable: ' + str(ex))}", ""]
         rep["relaxBody"] = dict(ok=False, why=str(ex))
     # the bookkeeping between the pop and the neighbour loop
@@ -739,7 +739,7 @@ def generate(repo):
                 "    (`A@u` = `A[py][px]`) -/",
                 f"def popBody : S :=\n {tr.block(stmts)}", ""]
         rep["popBody"] = dict(ok=True, statements=len(stmts))
-    except Untranslatable as ex:
+    except Exception as ex:          # noqa: BLE001  (anything unexpected = not recognised)
         out += [f"def popBody : S := S.fail {lean_str('untranslatable: ' + str(ex))}", ""]
         rep["popBody"] = dict(ok=False, why=str(ex))
     # min-cost selection
@@ -752,7 +752,7 @@ def generate(repo):
                 "/-- ... and whether the loops run `for i in range(rows): for j in range(cols)` -/",
                 f"def minCostRowMajor : Bool := {'true' if row_major else 'false'}", ""]
         rep["minCost"] = dict(ok=True, row_major=row_major)
-    except Untranslatable as ex:
+    except Exception as ex:          # noqa: BLE001  (anything unexpected = not recognised)
         msg = lean_str("untranslatable: " + str(ex))
         out += [f"def minCostInit : S := S.fail {msg}", f"def minCostBody : S := S.fail {msg}", "def minCostRowMajor : Bool := false", ""]
         rep["minCost"] = dict(ok=False, why=str(ex))
@@ -766,7 +766,7 @@ def generate(repo):
                 "/-- the casts applied to them (`int` truncates towards zero) -/",
                 f"def pixelCasts : List String := [{', '.join(lean_str(c) for c in casts)}]", ""]
         rep["pixel"] = dict(ok=True, casts=casts)
-    except Untranslatable as ex:
+    except Exception as ex:          # noqa: BLE001  (anything unexpected = not recognised)
         out += ["def pixelRow : E := E.nan", "def pixelCol : E := E.nan", "def pixelCasts : List String := []", ""]
         rep["pixel"] = dict(ok=False, why=str(ex))
     # snapping
@@ -781,7 +781,7 @@ def generate(repo):
                 "/-- ... and whether the loops run rows first -/",
                 f"def snapRowMajor : Bool := {'true' if row_major else 'false'}", ""]
         rep["snap"] = dict(ok=True, init_inf=init_inf, row_major=row_major)
-    except Untranslatable as ex:
+    except Exception as ex:          # noqa: BLE001  (anything unexpected = not recognised)
         msg = lean_str("untranslatable: " + str(ex))
         out += ["def snapKeep : C := C.ff", "def snapInitInf : Bool := false", f"def snapBody : S := S.fail {msg}",
                 "def snapRowMajor : Bool := false", ""]
